@@ -211,7 +211,7 @@ def run_scenario(sc):
                         net.ev("late_append", rid=it["late"], accepted=md is not None)
                         if md is not None:
                             net.ev("c_accept", tp=["t", tp0], rid=it["late"], newb=False, bid=-1)
-                            sends.append((it["late"], ti, tp0, None, bfut, None, None, [], len(it["send_batch"])))
+                            sends.append((it["late"], ti, tp0, None, bfut, None, None, [], -1))
                     await maybe_ctl()
                     continue
                 rid = it["rid"]
